@@ -1,5 +1,5 @@
 (* Correspondence suites for C06: suite name -> arguments -> observation text. *)
-Require Import Bytes AMap Dispatch.
+Require Import Bytes AMap Dispatch DispatchMachine.
 
 Definition one_byte06 (b : N) (s : str) : bool := match s with [c] => c =? b | _ => false end.
 
@@ -121,6 +121,139 @@ Fixpoint run_ops (fuel : nat) (st : tstate) (args : list str) : list str :=
 Definition show_table_ops (args : list str) : str :=
   join semi (run_ops (S (length args)) (mkT empty_table [] []) args).
 
+(* ---- dispatch.trace: trace acceptance ---------------------------------------------- *)
+
+Definition nat_of (s : str) : nat := match parse_nat s with Some n => N.to_nat n | None => 0%nat end.
+Definition N_of (s : str) : N := match parse_nat s with Some n => n | None => 0 end.
+
+(* the fresh-id oracle of the driver: handler h gets "a" repeated h+1 times (uids are not
+   observable; what matters is that they are distinct, ':'-free and not empty) *)
+Definition drv_uid (h : N) : str := repeat 97 (S (N.to_nat h)).
+
+(* take k groups of [w] arguments *)
+Fixpoint take_groups (k w : nat) (args : list str) : list (list str) * list str :=
+  match k with
+  | O => ([], args)
+  | S k' => let (gs, rest) := take_groups k' w (skipn w args) in (firstn w args :: gs, rest)
+  end.
+
+Definition decl_of (g : list str) : hdecl :=
+  match g with
+  | cmd :: flags :: _ => mkHD cmd (memb 98 flags) (memb 116 flags) (memb 105 flags) (memb 100 flags)
+  | _ => mkHD [] false false false false
+  end.
+
+Definition rop_of (clears : list str) (tok : str) : rop :=
+  match tok with
+  | 97 :: r => RAdd (N_of r)                      (* a<h> *)
+  | 109 :: r => RRemove (N_of r)                  (* m<h> *)
+  | 107 :: r => RClear (nth (nat_of r) clears []) (* k<j> *)
+  | _ => RClearAll                                 (* K *)
+  end.
+
+Definition outcome_of (s : str) : outcome :=
+  if one_byte06 112 s then OPanic else ORet (one_byte06 49 s).
+
+Definition action_of (clears : list str) (tok : str) : option action :=
+  match split_byte 46 tok with
+  | [[118]; n] => Some (AArrive (nat_of n))
+  | [[100]; n] => Some (ADeliver (nat_of n))
+  | [[115]; n; k] => Some (ASnap (nat_of n) (nat_of k))
+  | [[103]; n; h] => Some (ASignal (nat_of n) (N_of h))
+  | [[83]; n; h] => Some (AStart (nat_of n) (N_of h))
+  | [[69]; n; h; o] => Some (AEnd (nat_of n) (N_of h) (outcome_of o))
+  | [[98]; n; k] => Some (ABarrier (nat_of n) (nat_of k))
+  | [[99]; i; op] => Some (ACall (nat_of i) (rop_of clears op))
+  | [[108]; i; op] => Some (ALin (nat_of i) (rop_of clears op))
+  | [[114]; i; op; r] => Some (ARet (nat_of i) (rop_of clears op) (one_byte06 49 r))
+  | [[116]; h] => Some (ATmpRemove (N_of h))
+  | [[120]; h] => Some (AClose (N_of h))
+  | _ => None
+  end.
+
+Fixpoint actions_of (clears : list str) (toks : list str) : option (list action) :=
+  match toks with
+  | [] => Some []
+  | t :: r =>
+    match action_of clears t, actions_of clears r with
+    | Some a, Some l => Some (a :: l)
+    | _, _ => None
+    end
+  end.
+
+(* threads: for each, a count then that many op tokens *)
+Fixpoint take_threads (k : nat) (clears : list str) (args : list str) : list (list rop) * list str :=
+  match k with
+  | O => ([], args)
+  | S k' =>
+    match args with
+    | [] => ([], [])
+    | cnt :: rest =>
+      let m := nat_of cnt in
+      let (ts, rest') := take_threads k' clears (skipn m rest) in
+      (List.map (rop_of clears) (firstn m rest) :: ts, rest')
+    end
+  end.
+
+(* index of the first action of the schedule the machine cannot take *)
+Fixpoint stuck_at (sc : scenario) (s : state) (tr : list action) (i : nat) : option nat :=
+  match tr with
+  | [] => None
+  | a :: r => match step sc s a with Some s' => stuck_at sc s' r (S i) | None => Some i end
+  end.
+
+(* arguments: recover, nH, nH x [cmd, flags], nInit, nInit x [h], nE, nE x [cmd, echo], nC,
+   nC x [clear command], nT, nT x [count, count x [op]], nCert, nCert x [action], then the
+   observed actions *)
+Definition show_trace (args : list str) : str :=
+  match args with
+  | rc :: nh :: r0 =>
+    let (hs, r1) := take_groups (nat_of nh) 2 r0 in
+    match r1 with
+    | ni :: r1' =>
+      let inits := List.map N_of (firstn (nat_of ni) r1') in
+      match skipn (nat_of ni) r1' with
+      | ne :: r2 =>
+        let (es, r3) := take_groups (nat_of ne) 2 r2 in
+        match r3 with
+        | nc :: r3' =>
+          let clears := firstn (nat_of nc) r3' in
+          match skipn (nat_of nc) r3' with
+          | nt :: r4 =>
+            let (ths, r5) := take_threads (nat_of nt) clears r4 in
+            match r5 with
+            | ncert :: r6 =>
+              let decls := List.map decl_of hs in
+              let evs := List.map (fun g => match g with
+                                            | c :: e :: _ => mkEv c (one_byte06 49 e)
+                                            | _ => mkEv [] false
+                                            end) es in
+              let sc := mkSc drv_uid (fun h => nth (N.to_nat h) decls (mkHD [] false false false false))
+                             inits evs ths (one_byte06 49 rc) in
+              match actions_of clears (firstn (nat_of ncert) r6), actions_of clears (skipn (nat_of ncert) r6) with
+              | Some cert, Some obs =>
+                if accepts sc cert obs then bs "accept"
+                else if negb (wf_scb sc) then bs "reject:scenario"
+                else match stuck_at sc (init sc) cert 0 with
+                     | Some i => bs "reject:stuck@" ++ show_nat i
+                     | None => bs "reject:projection"
+                     end
+              | _, _ => bs "?action"
+              end
+            | _ => bs "?args"
+            end
+          | _ => bs "?args"
+          end
+        | _ => bs "?args"
+        end
+      | _ => bs "?args"
+      end
+    | _ => bs "?args"
+    end
+  | _ => bs "?args"
+  end.
+
 Definition run_C06 (suite : str) (args : list str) : option str :=
   if streqb suite (bs "dispatch.table") then Some (show_table_ops args)
+  else if streqb suite (bs "dispatch.trace") then Some (show_trace args)
   else None.
